@@ -29,6 +29,7 @@ from ..core.types import Capability
 # Safety limits
 MAX_EXPRESSION_LENGTH = 10000  # Characters
 MAX_AST_DEPTH = 50  # Nesting levels
+RESULT_BITS_PER_SECOND = 1 << 20  # Size budget for a single result, per second of timeout
 
 class MetabolicPathway(Enum):
     """
@@ -536,6 +537,7 @@ class Mitochondria:
             op = self.SAFE_OPERATORS.get(type(node.op))
             if op is None:
                 raise ValueError(f"Unsupported operator: {type(node.op).__name__}")
+            self._check_result_size(type(node.op), left, right)
             return op(left, right)
 
         # Unary operations (-, +)
@@ -561,6 +563,9 @@ class Mitochondria:
                             raise ValueError("**kwargs expansion is not supported")
                         kwargs[kw.arg] = self._compute_node(kw.value)
                     if callable(func):
+                        if func is math.factorial and args and isinstance(args[0], int):
+                            # n! has about n * log2(n) bits
+                            self._require_result_bits(args[0] * args[0].bit_length())
                         return func(*args, **kwargs)
                     # Constants like pi, e are values, not functions
                     raise TypeError(f"'{func_name}' is not callable")
@@ -609,6 +614,33 @@ class Mitochondria:
             return self._compute_node(node.orelse)
 
         raise ValueError(f"Unsupported expression type: {type(node).__name__}")
+
+    def _require_result_bits(self, bits: int) -> None:
+        """
+        Refuse a result that cannot be produced within the timeout.
+
+        The timeout cannot interrupt a single big-integer or sequence operation,
+        so the size of its result is bounded up front instead: at most
+        RESULT_BITS_PER_SECOND bits per second of configured timeout.
+        """
+        limit = int(self.timeout * RESULT_BITS_PER_SECOND)
+        if bits > limit:
+            raise ValueError(
+                f"Result too large for the {self.timeout}s timeout (~{bits} bits, limit {limit})"
+            )
+
+    def _check_result_size(self, op_type: type, left: Any, right: Any) -> None:
+        """Bound the result size of the operators that can grow without limit."""
+        if op_type is ast.Pow:
+            if isinstance(left, int) and isinstance(right, int) and right > 0:
+                self._require_result_bits(left.bit_length() * right)
+        elif op_type is ast.Mult:
+            if isinstance(left, int) and isinstance(right, int):
+                self._require_result_bits(left.bit_length() + right.bit_length())
+            else:
+                for seq, count in ((left, right), (right, left)):
+                    if isinstance(seq, (str, list, tuple)) and isinstance(count, int):
+                        self._require_result_bits(len(seq) * max(count, 0) * 8)
 
     def get_efficiency(self) -> float:
         """Get total ATP efficiency produced."""
